@@ -448,7 +448,13 @@ def x_unlim_extend(w, s):
     def run():
         h = w.da.open_nc(path, mode="a")
         try:
+            if labs and s.get("label_reads", True):
+                h[name].loc[labs[0]]       # a label look-up through this handle before the dimension grows
             h[name].iloc[index] = val      # .ix would mean labels when indexing.by is 'position'
+            if s.get("label_reads", True):
+                seen = h[name].loc[new[-1]]     # ... and the freshly written label must be found through the same handle
+                if not V.same_scalar(seen, vals[-1]):
+                    raise AssertionError("label look-up of the new label %r through the writing handle gives %r, written %r" % (new[-1], seen, vals[-1]))
             return h[name].read()
         finally:
             h.close()
@@ -509,7 +515,7 @@ def _gen_multi(w, rng):
     if len(free) < 2:
         return None
     n = rng.randint(2, min(3, len(free)))
-    paths = sorted(rng.sample(free, n))
+    paths = rng.sample(free, n)     # an explicit list is read in the order given, sorted or not
     cfg = dict(w.cfg, max_rank=2)
     base = gen_dataset_spec(rng, cfg, nvars=rng.randint(1, 2))
     if not base["dims"]:
@@ -596,8 +602,11 @@ def x_multi_read(w, s):
     if exp[0] == "raise":
         w.count("c20:multi_unasserted_reference_raises")
         return "unasserted:" + exp[1].__name__
-    got = _guard(lambda: da.read_nc(list(paths), names, **kw))
+    given = list(paths)
+    got = _guard(lambda: da.read_nc(given, names, **kw))
     F.finalize_leaks(w)
+    if given != list(paths) and "C20" in w.props:
+        raise Violation("C20", "multi_read", "read_nc reordered the caller's list of files: %r -> %r" % (list(paths), given))
     w.n_disk += 1
     w.count("c20:multi_%s%s" % (s["mode"], "_align" if s["align"] else ""))
     if "C20" not in w.props:
